@@ -131,6 +131,31 @@ def run(F, R, tier):
 
     impls = [b for b in box.bodies if b.get("name") in ("remap", "remap_with_class_name") and "remap::" in b["path"] and b.get("impl_trait_path", "").endswith(("::Mappable", "::MappableWithClassName"))]
     n_struct = n_enum = n_cases = 0
+    # the name of the class being remapped (`this_class`) is the owner of a member lookup only where the member is DECLARED by that class
+    # (impl for Field / Method); everywhere else it is only handed on to the parts.  The name of an invokedynamic call site or of a dynamic
+    # constant is not a member of the enclosing class (seed C07-13: `map_method(this_class, &self.name, ..)` in the impl for InvokeDynamic)
+    for b in impls:
+        if b.get("name") != "remap_with_class_name" or len(b["params"]) != 3:
+            continue
+        tb = H.pat_bindings(b["params"][2])
+        if not tb:
+            continue
+        tid = tb[0][0]
+        short_ty = b["impl_ty"].rsplit("::", 1)[-1]
+        bad = []
+        for n, ps in H.walk_with_parents(b["body"]):
+            if not (n.get("k") == "path" and (n.get("res") or {}).get("r") == "local" and n["res"].get("id") == tid):
+                continue
+            call = next((q for q in reversed(ps) if q.get("k") in ("call", "mcall")), None)
+            nm = H.callee_name(call) if call else None
+            if nm == "remap_with_class_name" or (call is not None and (call.get("callee") or {}).get("key") in _BY_KEY
+                                                 and not (nm or "").startswith("map_")):
+                continue        # handed on (to the parts, or to a private helper of dukebox::remap)
+            if short_ty in ("Field", "Method") and nm in ("map_field", "map_method") and call["args"] and any(x is n for x in H.walk(call["args"][0])):
+                continue
+            bad.append("`%s`" % H.render(call or n)[:100])
+        R.inst("R07.3", "enclosing-class-as-owner:%s" % short_ty, not bad, sp=b["sp"], got=bad or "only handed on",
+               expect="this_class is the owner of map_field/map_method in the impls for Field and Method only, elsewhere it is handed on unchanged")
     for b in impls:
         ty = b["impl_ty"]
         self_id = None
@@ -951,6 +976,14 @@ def r07_2(F, R, box):
         cl = [n for n in H.walk(rm["body"]) if H.is_call(n, "remap_class")]
         ot = [n for n in H.walk(rm["body"]) if H.is_call(n, "remap_other")]
         R.inst("R07.2", "class-and-other-dispatch", len(cl) == 1 and len(ot) == 1, sp=rm["sp"])
+        # every class entry is remapped: a class that keeps its own name can still mention renamed classes and members
+        # (seed C07-12: unrenamed classes copied verbatim as an "optimisation")
+        for what, sites in (("class", cl), ("other", ot)):
+            if len(sites) == 1:
+                conds = [(k, H.render(cn)[:70] if k != "arm" else "a match arm", pol)
+                         for k, cn, pol in H.path_conditions(rm["body"], sites[0], skip_error_exits=True)]
+                R.inst("R07.2", "every-%s-entry-goes-through-remap_%s" % (what, what), not conds, sp=sites[0].get("sp"), got=conds or "unconditional",
+                       expect="remap_%s is applied to every %s entry, whatever its name or content" % (what, what))
         # every entry of the input jar gives an entry of the output (seed C07-7: signature files skipped with `continue`)
         DROP = ("filter", "filter_map", "skip", "skip_while", "take", "take_while", "step_by", "nth", "last", "find", "find_map", "flat_map",
                 "retain", "truncate", "remove", "shift_remove", "swap_remove", "pop", "drain", "clear", "split_off")
